@@ -948,7 +948,15 @@ class ClientSession:
                     break
 
             if req._body is not None:
-                await req._body.close()
+                if (upload := req._writer) is None:
+                    await req._body.close()
+                else:
+                    # The response head may arrive while the body is still being
+                    # sent (echo, early answer): the writer owns the payload
+                    # until it is done.
+                    upload.add_done_callback(
+                        lambda _, body=req._body: self._loop.create_task(body.close())
+                    )
             resp._history = tuple(history)
             # check response status
             if raise_for_status is None:
